@@ -119,7 +119,10 @@ def r_best(m, rep, R='R1.2b'):
     if m.DALL:
         d = m.locals.get(m.DALL)
         init = m.env.init_of(d) if d is not None else None
-        ok = init is not None and term(init, m.env) in (LIT(0), LIT(0.0))
+        if m.DALL in getattr(m, 'member_init', {}):
+            ok = m.member_init[m.DALL] in (LIT(0), LIT(0.0))      # a member of a record local: its constructor initialiser
+        else:
+            ok = init is not None and term(init, m.env) in (LIT(0), LIT(0.0))
         if getattr(m, 'DALL_sum', None) is not None and d is not None:
             # the sum of the finished BD vector, taken after the loop that fills it
             idx_ = {id(s_): i_ for i_, s_ in enumerate(m.top)}
